@@ -117,7 +117,7 @@ def run_with_simulation(scn, bus, seed, budget=6000):
     return {"trace": trace, "result": res, "steps": loop.step, "info": info, "ctx": ctx}
 
 
-def analyse(scn, run, target, n, hook, res, case):
+def analyse(scn, run, target, n, hook, res, case, rep=None):
     tr = run["trace"]
     if run["result"][0] != "ok" or not run["info"].get("returned"):
         why = run["result"][0]
@@ -135,10 +135,13 @@ def analyse(scn, run, target, n, hook, res, case):
         res.violate(V("exception-not-reported-to-master", f"no ComponentException reached a top-level output topic after {target} failed", site="bus"), case)
     else:
         m = at_master[0]["msg"]
+        if rep.get("source") is not None and (m["source"] != rep["source"]):
+            res.diverge(f"fail-stop model: master saw source {m['source']}, model {rep['source']}", case)
         if m["source"] != target or "probe" not in m["error"]:
             res.violate(V("identity-lost", f"master saw ComponentException(source={m['source']}, error={m['error']}) for failure of {target}", site="bus"), case)
     # model: who must be stopped / which schedulers errored
-    rep = model_report(scn["components"], target)
+    if rep is None:
+        rep = model_report(scn["components"], target)
     stops = {e["topic"][len("tickit-"):-len("-in")] for e in tr.of("produce") if e["msg"]["m"] == "StopComponent"}
     missing = [c for c in rep["stopped"] if c not in stops]
     if missing:
@@ -178,7 +181,11 @@ def run(tier, seed, drv):
                         if not failed:
                             res.count("failure-point-not-reached")
                             continue
-                        analyse(s2, run_, target, n, hook, res, case)
+                        rep = drv.eval([{"op": "failstop", "tree": tree(s2["components"]), "target": target, "error": "probe"}])[0]
+                        pyrep = model_report(s2["components"], target)
+                        if rep is None or sorted(pyrep["stopped"]) != rep["stopped"] or pyrep["errored"] != rep["errored"]:
+                            res.diverge(f"fail-stop model driver/python rendering differ: {rep} vs {pyrep}", case)
+                        analyse(s2, run_, target, n, hook, res, case, rep=dict(pyrep, source=(rep or {}).get("source")))
     res.rule = ("3 configurations (flat diamond; system with two inner devices between source and sink; depth-2 nesting with exposed chain) [+ generated "
                 "nestings in the thorough tier]; every device x n-th update (0..2 / 0..3) x {Device.update raises, adapter after_update raises} x "
                 "{synchronous bus, seeded delaying bus}; the simulation is run through the real TickitSimulation.run() under the virtual clock with a "
